@@ -65,6 +65,15 @@ def sqn(s):
     return "abcdefgh"[s % 8] + str(s // 8 + 1)
 
 
+def mirror_fen(fen):
+    """The colour-mirrored position (ranks flipped, colours and side to move swapped, castling letters and en-passant rank with them)."""
+    f = fen.split()
+    rows = [r.swapcase() for r in reversed(f[0].split("/"))]
+    castle = "".join(c for c in "KQkq" if c in f[2].swapcase()) or "-"
+    ep = "-" if f[3] == "-" else f[3][0] + str(9 - int(f[3][1]))
+    return " ".join(["/".join(rows), "b" if f[1] == "w" else "w", castle, ep] + f[4:])
+
+
 def tb_fen(piece, idx, mirror=False):
     """FEN of table slot idx (White attacking); mirror=True gives the colour-mirrored position."""
     stm, rest = divmod(idx, 262144)
@@ -634,6 +643,8 @@ def mate_certificates(chk, wvbin, wd, pid, quick, seed):
     """C06 outside the tablebase families: every mate claim of the engine on tactical / adversarial / random positions must be
     provable move by move (CertTrace.tla)."""
     fens = [l.strip() for l in open(os.path.join(CORPUS, "mates.fen")) if l.strip() and not l.startswith("#")]
+    # the same with colours swapped (every second one in the quick tier): nothing in the property depends on the colour
+    fens += [mirror_fen(f) for i, f in enumerate(fens) if not quick or (i + seed) % 2 == 0]
     fens += corpus_fens() + play_fens(wvbin, wd, seed + 5, 20 if quick else 300, 60, every=4)
     fpath = os.path.join(wd, "cert_fens.txt")
     with open(fpath, "w") as f:
